@@ -1,7 +1,106 @@
-(* C16 - placeholder while the proofs are being developed *)
-From Coq Require Import List NArith Bool.
-From HV Require Import XmlNs.XTreeModel.
+(* C16 - XML namespaces resolve by lexical scope and lose no attribute.
+   Only statements, closed by [exact], and their assumptions.
+   Model: XmlNs/XTreeModel.v (tree builder at token level + finish_attribute +
+   QualNameTokenizer); independent specification: XmlNs/XTreeSpec.v. *)
+From Coq Require Import List NArith Bool Permutation.
+From HV Require Import XmlNs.XTreeModel XmlNs.XTreeSpec XmlNs.XTreeProofs.
 Import ListNotations.
-Example C16_nonvacuous : qname_split [112;58;120]%N = Some 1%nat.
-Proof. vm_compute. reflexivity. Qed.
-Print Assumptions C16_nonvacuous.
+
+(* the tokenizer's QualNameTokenizer state machine is the declarative split:
+   exactly one colon, neither first nor last *)
+Theorem C16_qname_split :
+  forall s, process_qname s = mkq (fst (spec_split s)) [] (snd (spec_split s)).
+Proof. exact process_qname_spec. Qed.
+Print Assumptions C16_qname_split.
+
+(* namespace_stack = default :: one map per open element (the map made from
+   that element's own tag), current_namespace is empty between tokens, and no
+   expect()/unwrap() of the builder fires - for every token stream, as long as
+   elements can still be created (phases Start and Main) *)
+Theorem C16_stack_invariant :
+  forall rts, let s := run (map tokenize rts) in
+  tpanic s = false /\
+  (tphase s <> PEnd ->
+   tcur s = [] /\ tnss s = map (fun f => dmap (snd (fsrc f))) (topen s) ++ [nm_default]).
+Proof. exact stack_invariant. Qed.
+Print Assumptions C16_stack_invariant.
+
+(* lexical scope, for EVERY token stream (no side condition): the name and
+   the attributes of every element of the resulting tree are a function of the
+   element's own tag and the tags of its ancestors in the resulting tree -
+   never of siblings, descendants, preceding or following content, tag kind or
+   the error recovery that closed other elements *)
+Theorem C16_lexical_scope :
+  forall rts, Forall (all_elems elem_lex []) (parse_raw rts).
+Proof. exact lexical_scope. Qed.
+Print Assumptions C16_lexical_scope.
+
+(* C16_scope outside the finding classes: every element carries
+   resolve(prefix, declarations of its own tag :: declarations of its ancestors
+   in the resulting tree) - default namespace for unprefixed elements, xml and
+   xmlns fixed, empty declaration un-binds - provided none of those tags is in
+   class 8 (raw-vs-local duplicate test) or declares one name twice *)
+Theorem C16_scope_outside_finding :
+  forall rts, Forall (all_elems name_scoped []) (parse_raw rts).
+Proof. exact scope_outside_finding. Qed.
+Print Assumptions C16_scope_outside_finding.
+
+(* C16_attrs outside the finding classes: the attributes of every element are
+   the first-wins de-duplication by expanded name of the non-declaration
+   attributes of its tag, unprefixed ones in no namespace, prefixed ones
+   resolved like element prefixes - provided the tag is additionally outside
+   class 9 (p:xmlns) *)
+Theorem C16_attrs_outside_finding :
+  forall rts, Forall (all_elems attrs_scoped []) (parse_raw rts).
+Proof. exact attrs_outside_finding. Qed.
+Print Assumptions C16_attrs_outside_finding.
+
+(* the rule does not depend on the order of the attributes: permuting a tag's
+   attributes leaves the set of surviving expanded names unchanged *)
+Theorem C16_attrs_order_independent :
+  forall scopes raws raws', Permutation raws raws' ->
+  forall k, In k (map akey (spec_attrs scopes raws)) <-> In k (map akey (spec_attrs scopes raws')).
+Proof. exact spec_attrs_order_independent. Qed.
+Print Assumptions C16_attrs_order_independent.
+
+(* the map a well-behaved tag pushes is exactly what the tag declares *)
+Theorem C16_tag_map_is_its_declarations :
+  forall raws, scope_ok raws = true -> forall k, nm_get (dmap raws) k = tag_binding k raws.
+Proof. exact dmap_binding. Qed.
+Print Assumptions C16_tag_map_is_its_declarations.
+
+(* findings (DESIGN 6.3 rows 8, 9 and the duplicate-declaration variant of 8):
+   the unconditional statements are false for the model of the code as it is *)
+Theorem C16_attrs_refuted_raw_vs_local_duplicate_test :
+  ~ Forall (all_elems attrs_strict []) (parse_raw w8) /\
+  Forall (all_elems attrs_strict []) (parse_raw w8').
+Proof. exact attrs_refuted_raw_vs_local. Qed.
+Print Assumptions C16_attrs_refuted_raw_vs_local_duplicate_test.
+
+Theorem C16_attrs_refuted_prefixed_xmlns_dropped :
+  ~ Forall (all_elems attrs_strict []) (parse_raw w9).
+Proof. exact attrs_refuted_prefixed_xmlns. Qed.
+Print Assumptions C16_attrs_refuted_prefixed_xmlns_dropped.
+
+Theorem C16_scope_refuted_duplicate_declaration_last_wins :
+  ~ Forall (all_elems name_strict []) (parse_raw wdup).
+Proof. exact scope_refuted_duplicate_declaration. Qed.
+Print Assumptions C16_scope_refuted_duplicate_declaration_last_wins.
+
+(* non-vacuity: <r xmlns="d" xmlns:p="u"><p:a p:x="1" x="2" xmlns:p="v"/><b xmlns=""/></r>
+   satisfies the side conditions, and the tree carries d, v (shadowing), no
+   namespace for the unprefixed attribute, and the un-declared default *)
+Definition ex_doc : list rtoken :=
+  [RTag StartTag [114] [([120;109;108;110;115], [100]); ([120;109;108;110;115;58;112], [117])];
+   RTag EmptyTag [112;58;97] [([112;58;120], [49]); ([121], [50]); ([120;109;108;110;115;58;112], [118])];
+   RTag EmptyTag [98] [([120;109;108;110;115], [])];
+   RTag EndTag [114] []; REof]%N.
+
+Example C16_nonvacuous :
+  map erase (parse_raw ex_doc) =
+  [XElem (mkq None [100] [114]) []
+     [XElem (mkq (Some [112]) [118] [97])
+            [mka (mkq (Some [112]) [118] [120]) [49]; mka (mkq None [] [121]) [50]] [];
+      XElem (mkq None [] [98]) [] []]]%N /\
+  forallb (fun t => match t with RTag _ _ a => attrs_ok a | _ => true end) ex_doc = true.
+Proof. vm_compute. split; reflexivity. Qed.
